@@ -266,9 +266,11 @@ fn main() -> Result<()> {
             stack_size,
             transpile_first,
         } => {
+            // the same thread size as `run` (which compiles on it first): values are dropped and
+            // traced recursively, outside of the call depth that `--stack-size` limits
             let builder = thread::Builder::new()
                 .name("mscript-runtime".into())
-                .stack_size(stack_size);
+                .stack_size(stack_size.max(COMPILER_STACK_SIZE));
 
             let main_thread = builder.spawn(move || -> Result<()> {
                 Program::set_native_stack_budget(stack_size);
